@@ -7,7 +7,8 @@
         cset <- ToSet(V.clist)         (the one representation change of the core)
    TLC checks
      StepsAreCoreSteps  every MCCrawler step is a step of CrawlerCore!Next
-     ListingAgrees      Listing / Todo / the next bucket are the same in both
+     ListingAgrees      Listing / Todo / the next bucket / CanProcess / CanFinishPrefix are the same in both
+     GuardsAgree        CanSliceEnd / CanFinishCycle are the same in both
      GhostsAgree        must = MCCrawler's thr[cycle], done = the buckets with proc[cycle] >= 1
                         since the cycle (re)started, so Cover is C27_Cover's statement
      the core's IndInv, Cover, CycleNums in every reachable state. *)
@@ -30,13 +31,14 @@ ASpec == AInit /\ [][ANext]_avars
 
 StepsAreCoreSteps == [][Core!Next]_<<disk, saved, CoreV, pc, mustG, doneG>>
 
+GuardsAgree == pc = "run" => (CanSliceEnd(V) = Core!CanSliceEnd /\ CanFinishCycle(V) = Core!CanFinishCycle)
 ListingAgrees ==
   (pc = "run" /\ V.lcpi < NP) =>
      /\ ToSet(Listing(disk, V)) = Core!Listing
      /\ ToSet(Todo(disk, V)) = Core!Todo
      /\ (Todo(disk, V) # <<>>) => (\A c \in Core!Todo : Head(Todo(disk, V)) <= c)
-     /\ CanProcess(disk, V) = (Core!Todo # {})
-     /\ CanFinishPrefix(disk, V) = (Core!Todo = {})
+     /\ CanProcess(disk, V) = Core!CanProcess
+     /\ CanFinishPrefix(disk, V) = Core!CanFinishPrefix
 
 \* the cycle the ghosts talk about: the one in progress, or the one that just finished
 GhostsAgree ==
